@@ -243,7 +243,7 @@ def main(argv=None) -> int:
     by_sig: dict[str, list[dict]] = {}
     for v in viols:
         by_sig.setdefault(v["sig"], []).append(v)
-    new_lines, known_lines = [], []
+    new_lines, known_lines, unconfirmed = [], [], []
     n_new = 0
     for sig, vs in sorted(by_sig.items()):
         vs.sort(key=lambda v: (v["idx"], json.dumps(v["case"], sort_keys=True, default=str)))
@@ -265,8 +265,10 @@ def main(argv=None) -> int:
                 path.write_text(json.dumps(body, indent=1, sort_keys=True))
                 ok = confirm(pid, path, sig)
             if ok is not True:
-                print(f"HARNESS-ERROR: violation [{sig}] did not reproduce in a fresh interpreter ({ok}); replay={path}\n  {first['msg']}")
-                return 2
+                # keep going: another signature of the same run may reproduce (a defect that needs the history of the whole worker process
+                # shows in one signature by accident and, reproducibly, in the signature of the case that builds the history itself)
+                unconfirmed.append((path, sig, first["msg"], ok))
+                continue
         n_new += len(vs)
         new_lines.append((path, sig, first["msg"], len(vs)))
 
@@ -318,8 +320,12 @@ def main(argv=None) -> int:
     for path, sig, msg, n in new_lines:
         print(f"  [{sig}] x{n}: {msg}")
         print(f"VIOLATION property={pid} replay={path}")
+    for path, sig, msg, ok in unconfirmed:
+        print(f"{'UNCONFIRMED' if new_lines else 'HARNESS-ERROR'}: violation [{sig}] did not reproduce in a fresh interpreter ({ok}); replay={path}\n  {msg}")
     if new_lines:
         return 1
+    if unconfirmed:
+        return 2
     if agg["evals"] == 0 or agg["nontrivial"] < 2:  # a silent run must not be a vacuous one
         print("HARNESS-ERROR: vacuous run (no non-trivial cases)")
         return 2
